@@ -115,7 +115,10 @@ func (c *Config) GetKpasswdServers(realm string, tcp bool) (int, map[int]string,
 	return count, kdcs, nil
 }
 
-func randServOrder(ks []string) map[int]string {
+func randServOrder(servers []string) map[int]string {
+	// Work on a copy: the slice handed in is the configuration's own list, which must neither be
+	// reordered nor written to (callers may resolve servers concurrently).
+	ks := append([]string(nil), servers...)
 	kdcs := make(map[int]string)
 	count := len(ks)
 	i := 1
